@@ -62,7 +62,7 @@ def make_flow(cfg, seed):
 def contexts(cfg, rows, g):
     if not cfg.get("ctx"):
         return None
-    w = 3 if cfg.get("embed") else cfg["ctx"]
+    w = dzoo.embed_width(cfg) if cfg.get("embed") else cfg["ctx"]
     # rows far apart so that using the wrong row is unmistakable
     base = torch.randn(rows, w, generator=g)
     return base + 3.0 * torch.arange(rows, dtype=base.dtype)[:, None] * torch.sign(torch.randn(1, w, generator=g))
@@ -243,14 +243,6 @@ def run_ks(r, case, flow, g, label, det):
         def logp(x):
             with torch.no_grad():
                 return flow.log_prob(x, ctx_row.expand(x.shape[0], -1) if ctx_row is not None else None)
-        try:
-            I1, I2, est, (gx, gcdf) = q.integrate_1d(logp, dom, 100000)
-        except Exception as e:
-            r.count("density_raised")
-            continue
-        if not np.isfinite(I2) or est > 1e-3 or abs(I2 - 1) > 2e-3:
-            r.count("ks_undecided_density")
-            continue
         rec = NoiseRecorder(flow._distribution)
         try:
             torch.manual_seed(seed + row)
@@ -265,6 +257,15 @@ def run_ks(r, case, flow, g, label, det):
             rec.remove()
         s = s.reshape(-1)
         fin = torch.isfinite(s)
+        try:
+            cen, sca = q.placement(s[fin]) if dom[0] == "R" and fin.any() else (0.0, 1.0)
+            I1, I2, est, (gx, gcdf) = q.integrate_1d(logp, dom, 100000, center=cen, scale=sca)
+        except Exception as e:
+            r.count("density_raised")
+            continue
+        if not np.isfinite(I2) or est > 1e-3 or abs(I2 - 1) > 2e-3:
+            r.count("ks_undecided_density")
+            continue
         if float((~fin).double().mean()) > 1e-4:
             r.viol("nonfinite_samples", "flow.sample returns non-finite samples", fraction=float((~fin).double().mean()), **det)
             continue
@@ -286,7 +287,8 @@ def run_ks(r, case, flow, g, label, det):
                 with torch.no_grad():
                     return base.log_prob(z, emb.expand(z.shape[0], -1) if emb is not None else None)
             try:
-                b1, b2, best, (bx, bcdf) = q.integrate_1d(logb, ("R",), 50000)
+                bc, bs = q.placement(noise.reshape(-1))
+                b1, b2, best, (bx, bcdf) = q.integrate_1d(logb, ("R",), 50000, center=bc, scale=bs)
                 if best < 1e-3 and abs(b2 - 1) < 2e-3:
                     r.ev()
                     r.count("ks_tests")
